@@ -20,6 +20,8 @@ _T = [
     "C11_dtype_changes_only_by_modify", "C11_modify_cell_typed", "C11_from_data_copies",
     "C11_within_radius_symmetric", "C11_neighborhood_mask_exact", "C11_select_within_saved_mask",
     "C11_shared_layer_second_grid", "C11_set_cells_array_pointwise",
+    "C11_create_typed_default", "C11_new_layer_typed_default",
+    "C11_layer_select_exact", "C11_layer_select_reads_cell_values", "C11_aggregate_exact",
     "C18_layers_add_reject_unchanged", "C18_layers_create_reject_unchanged", "C18_layers_add_rejects_exactly",
     "C18_layers_step_reject_unchanged", "C18_layers_rejected_calls_invisible",
 ]
@@ -31,7 +33,7 @@ TRUSTED = [
     "multiples of 1/4: exact in binary64); entries are Ints in the encoding of the array's dtype",
     "numpy's casts and result types are *modelled* (castTo = assignment cast, sameKind = np.copyto's rule, UOp.result / "
     "DType.join = result type of ufunc(array, Python scalar) and of np.where among bool_/int64/float64) and compared with "
-    "numpy on every run through typed writes, typed set_cells / modify_cells and dtype read-outs; other dtypes (int32, "
+    "numpy on every run through typed writes, typed constructor defaults, typed set_cells / modify_cells and dtype read-outs; other dtypes (int32, "
     "float32, uint8, object), NaN/inf, integer overflow, np.vectorize's choice of the output type from the *first* "
     "result when a Python function returns values of different types are not modelled",
     "numpy arrays are objects with identity (the model's heap): `a[...] = v` and np.copyto mutate, np.where allocates",
@@ -76,8 +78,8 @@ RULE = ("random scenarios over the three grid families (new cell spaces: Moore/V
         "bulk ops, agent place/move/remove, emptiness read-outs, layer.select_cells, aggregate, grid.select_cells over all "
         "16 combinations of {conditions, masks (literal, saved earlier mask-form results), only_empty, extreme values "
         "(1-2 entries, ties frequent)}}, every 8th scenario from the rejecting-call generator; each scenario ends with a full "
-        "read-out; 6 hand-written probes (near-tie extremes, positional array set, dtype tour, copy / second grid / "
-        "neighbourhood mask) run first. non-trivial = at least two successful state-changing ops and one read through a view; distinct = distinct "
+        "read-out; 8 hand-written probes (near-tie extremes, positional array set, dtype tour, copy / second grid / "
+        "neighbourhood mask, typed defaults with the layer's own select_cells / aggregate) run first. non-trivial = at least two successful state-changing ops and one read through a view; distinct = distinct "
         "op-line sequences (sha1)")
 HEADER_LINES = 1
 
@@ -171,6 +173,36 @@ nbmask 0 0.0 0 1
 select oe=0 conds=- ext=a:hi masks=s0 save=-
 nbmask 1 0.0 1 0
 nbmask 1 3.0 1 1""",
+    # defaults of another Python type are cast by np.full (2.75 -> 2, -0.5 -> True, True -> 1.0); the layer's own
+    # select_cells / aggregate read the current values
+    "typed-defaults-layer-select-aggregate": """scenario new 1x3 0 moore 0
+create a int f:11
+cget a 0.1
+lget 1 0.2
+dtype 1
+create b bool f:-2
+cget b 0.0
+create c float b:1
+dump 3
+new d 1x3 int f:-11
+attach 4
+cget d 0.0
+lset 1 0.1 5
+lsel 1 gt:2
+agg 1 sum
+agg 1 max
+agg 1 min
+agg 2 sum""",
+    "typed-defaults-legacy": """scenario multi 2x2 0 - 0
+create a int f:11
+cget a 0.1
+create b bool i:3
+dump 1
+dtype 1
+lset 0 1.0 -1
+agg 0 sum
+agg 0 min
+lsel 0 lt:2""",
 }
 
 
